@@ -1,13 +1,16 @@
 #!/bin/bash
-# usage: tools/sweep_seeds.sh "<VERIF_SEED values>" [seed names...] : every stored seeded change against its own property's quick check
+# usage: [SEEDREPO=<scratch checkout>] tools/sweep_seeds.sh "<VERIF_SEED values>" [seed names...]
+# every stored seeded change against its own property's quick check, applied to $SEEDREPO (default /repo) and undone afterwards
+R=${SEEDREPO:-/repo}
 SEEDS=${1:-"1 2 3"}; shift
 NAMES=${@:-$(ls /verif/seeded)}
 for N in $NAMES; do
-  git -C /repo apply /verif/seeded/$N/patch.diff || { echo "$N PATCH DOES NOT APPLY"; continue; }
+  P=${N:0:3}
+  git -C $R apply /verif/seeded/$N/patch.diff || { echo "$N PATCH DOES NOT APPLY"; continue; }
   for S in $SEEDS; do
-    R=$(cd /verif && VERIF_SEED=$S ./check $N --tier quick 2>&1 | grep -c "^VIOLATION")
-    echo "seed $N VERIF_SEED=$S -> $R violation line(s)"
+    C=$(cd /verif && VERIF_REPO=$R VERIF_SEED=$S ./check $P --tier quick 2>&1 | grep -c "^VIOLATION")
+    echo "seed $N VERIF_SEED=$S -> $C violation line(s)"
   done
-  git -C /repo checkout -- .
+  git -C $R checkout -- .
 done
-git -C /repo status --short
+git -C $R status --short
